@@ -28,4 +28,13 @@ func init() {
 		Old: "\t\t\tdefer func() {\n\t\t\t\tres.ctxErrCh <- err\n\t\t\t}()\n", New: "", Expect: "reports-exactly-once"})
 	seed(Seed{Name: "incmap-close-dirty-only", Prop: "C17", Rule: "RES-FORWARD", File: "distsys/resources/incmap.go",
 		Old: "\tfor _, idx := range res.realizedMap.Keys() {\n\t\tr, _ := res.realizedMap.Get(idx)\n\t\tcerr := r.Close()", New: "\tfor _, idx := range res.dirtyElems.Keys() {\n\t\tr, _ := res.dirtyElems.Get(idx)\n\t\tcerr := r.Close()", Expect: "IncMap.Close"})
+	seed(Seed{Name: "poll-before-error-dispatch", Prop: "C17", Rule: "EXIT-POLL", File: ctx,
+		Old: "\tfor {\n\t\t// all error control flow lives here, reached by \"continue\" from below\n\t\tswitch err {",
+		New: "\tfor {\n\t\tselect {\n\t\tcase <-ctx.requestExit:\n\t\t\treturn nil\n\t\tdefault:\n\t\t}\n\t\tswitch err {", Expect: "poll-after-outcome-dispatch"})
+	seed(Seed{Name: "nested-close-stops-conditionally", Prop: "C17", Rule: "NESTED-COUNT", File: "distsys/resources/nestedarch.go",
+		Old: "\tfor _, nestedCtx := range res.nestedCtxs {\n\t\tgo nestedCtx.Stop()\n\t}\n\n\t// because every goroutine",
+		New: "\tselect {\n\tcase <-res.ctxHasStopped:\n\tdefault:\n\t\tfor _, nestedCtx := range res.nestedCtxs {\n\t\t\tgo nestedCtx.Stop()\n\t\t}\n\t}\n\n\t// because every goroutine", Expect: "stops-unconditionally"})
+	seed(Seed{Name: "nested-close-collects-first", Prop: "C17", Rule: "NESTED-COUNT", File: "distsys/resources/nestedarch.go",
+		Old: "\tfor _, nestedCtx := range res.nestedCtxs {\n\t\tgo nestedCtx.Stop()\n\t}\n\n",
+		New: "\tdefer func() {\n\t\tfor _, nestedCtx := range res.nestedCtxs {\n\t\t\tgo nestedCtx.Stop()\n\t\t}\n\t}()\n\n", Expect: "nestedArchetype.Close"})
 }
